@@ -191,9 +191,28 @@ def stage_sequences(ctx):
     hyp_drive(ctx, sequences(), judge_sequence, 800 if ctx.tier == "quick" else 20000)
 
 
+def stage_boundary(ctx):
+    """Latitudes at which the operands of the conversion code's own comparisons meet (lib/cmpsearch.py: thresholds,
+    tolerance bands, early exits of series loops), and their 1e-16..1e-6 rad surroundings."""
+    from lib import cmpsearch
+    anc = cmpsearch.anchors(ctx, "auth", 12 if ctx.tier == "quick" else 60)
+    if not anc:
+        ctx.col.count("boundary_stage_without_anchors")
+        return
+    unit = st.floats(0, 1, allow_nan=False)
+
+    def mk(a, u, side, exact, deg):
+        if deg:
+            return {"lat_deg": max(-90.0, min(90.0, a["lat"] + (0.0 if exact else (1 if side else -1) * 10.0 ** (-14 + 9 * u))))}
+        phi = math.radians(a["lat"]) + (0.0 if exact else (1 if side else -1) * 10.0 ** (-16 + 10 * u))
+        return {"phi": max(-math.pi / 2, min(math.pi / 2, phi))}
+    strat = st.builds(mk, st.sampled_from(anc), unit, st.booleans(), st.booleans(), st.booleans())
+    hyp_drive(ctx, strat, judge, 600 if ctx.tier == "quick" else 15000)
+
+
 def plan(tier):
     return [Stage("grid", 16, stage_grid, cost=6), Stage("special", 1, stage_special), Stage("audit", 4, stage_audit, cost=3),
-            Stage("hyp", 8, stage_hyp, cost=3), Stage("sequences", 4, stage_sequences, cost=3)]
+            Stage("hyp", 8, stage_hyp, cost=3), Stage("sequences", 4, stage_sequences, cost=3), Stage("boundary", 8, stage_boundary, cost=3)]
 
 
 def replay(rec, col):
